@@ -24,7 +24,7 @@ KF_FRAMING = ["TE_NOT_CHUNKED", "CL_DUP", "CL_SYNTAX", "NOBODY_METHOD"]
 def obligations(tier):
     n = 20 if tier == "quick" else 24
     obs = [dict(name="reqline", harness="C23_reqline.c", entry="harness_reqline",
-                defines=["VP_N=%d" % n, "KF_EXCLUDE_REQLINE_WS"], unwind=n + 2, instrument=CUT_URI,
+                defines=["VP_N=%d" % n], unwind=n + 3, instrument=CUT_URI,
                 timeout=600, mem_gb=8, native=False,
                 desc="request line <= %d symbolic bytes" % n)]
     v = 8 if tier == "quick" else 12
@@ -50,4 +50,8 @@ def obligations(tier):
     obs.append(dict(name="chunked", harness="C23_chunked.c", entry="harness_chunked", defines=["VP_S=%d" % S],
                 unwind=S + 3, timeout=900 if tier == "quick" else 2400, mem_gb=8,
                 desc="chunked body decoder on a symbolic stream of <=%d bytes vs RFC 9112 7.1 reference" % S))
+    for mode, ss in (("HEADERS", 6 if tier == "quick" else 7), ("CHUNKED", 7 if tier == "quick" else 9), ("FIRSTLINE", 14 if tier == "quick" else 16)):
+        obs.append(dict(name="segment_" + mode.lower(), harness="C23_segment.c", entry="harness_segment",
+                    defines=["VP_S=%d" % ss, "VP_SEG_" + mode], unwind=ss + 3, cbmc=["--object-bits", "10"], timeout=900 if tier == "quick" else 2400, mem_gb=8,
+                    desc="segmentation independence of %s: symbolic stream <=%d bytes, symbolic cut point, one read vs two reads" % (mode.lower(), ss)))
     return obs
